@@ -315,7 +315,7 @@ func (h *c18Hist) classifyStale(fl *c18Flow, now time.Time, viaCache bool) strin
 	}
 	deadline := fl.lastSeen.Add(fl.t)
 	for _, at := range h.reloads {
-		if at.After(deadline) {
+		if at.After(fl.lastSeen) { // the first lookup of the flow since a reload
 			return "C18/expired-flow-revived-by-reload"
 		}
 	}
@@ -465,7 +465,7 @@ func (h *c18Hist) send(p firewall.Packet, incoming bool, peer *c18Peer, why stri
 			if zone == "stale" {
 				r.Count("stale_dropped", 1)
 				for _, at := range h.reloads {
-					if at.After(fl.lastSeen.Add(fl.t)) {
+					if at.After(fl.lastSeen) {
 						r.Count("stale_dropped_after_reload", 1)
 						break
 					}
